@@ -352,7 +352,7 @@ def generate(tier, rng):
                             bg=-1.5, seed=rng.randrange(10 ** 6))
     # ---- seeded random members (thorough only)
     if thorough:
-        for i in range(120):
+        for i in range(360):
             nx, ny, X, Y, halo = _random_grid(rng)
             px, py = _pads(nx, ny, X, Y, halo)
             an = rng.random() < 0.3
